@@ -242,11 +242,10 @@ pub fn run(args: &Args, report: &mut Report) {
                 }
             }
             if !res.leaked_threads.is_empty() {
-                let parked = res.leaked_threads.iter().all(|t| matches!(t.state, crate::obs::ST_SEND | crate::obs::ST_RECV | crate::obs::ST_STATE_WAIT | crate::obs::ST_BARRIER | crate::obs::ST_NET_IDLE));
-                if parked {
-                    errs.push(format!("{} engine threads are parked for ever after the failure: {}", res.leaked_threads.len(), census_json(&res.leaked_threads)));
+                if res.leak_certified {
+                    errs.push(format!("{} engine threads are parked for ever after the failure (all parked, no engine event across 8 snapshots): {}", res.leaked_threads.len(), census_json(&res.leaked_threads)));
                 } else {
-                    report.count("jobs_with_threads_still_unwinding_after_5s", 1);
+                    report.count("jobs_with_threads_still_unwinding_after_90s", 1);
                 }
             }
             if errs.is_empty() {
